@@ -7323,18 +7323,59 @@ fn eval_block(env: &mut Env, expr_value_is_used: bool, block: &Block) {
     }
 }
 
+/// Does this pending entry have a bindings block pushed on its
+/// behalf, which its own `eval_expr` arm would pop when it runs?
+///
+/// `break` and `continue` discard pending entries without running
+/// them, so they must pop those blocks themselves.
+fn entry_owns_bindings_block(expr_state: &ExpressionState, expr: &Expression) -> bool {
+    match (&expr.expr_, expr_state) {
+        (
+            Expression_::Match(_, _) | Expression_::If(_, _, _) | Expression_::Try(_, _, _),
+            ExpressionState::EvaluatedSubexpressions,
+        ) => true,
+        (
+            Expression_::While(_, _) | Expression_::ForIn(_, _, _),
+            ExpressionState::PartiallyEvaluated(BlockState::DoneRunBlock),
+        ) => true,
+        (Expression_::ForIn(_, _, _), ExpressionState::EvaluatedSubexpressions) => true,
+        _ => false,
+    }
+}
+
+/// Is this pending entry a loop whose body is currently running?
+///
+/// A loop that is merely a later sibling expression in the same block
+/// (state `NotEvaluated`) is not the loop that `break` or `continue`
+/// refers to.
+fn is_running_loop(expr_state: &ExpressionState, expr: &Expression) -> bool {
+    matches!(
+        expr.expr_,
+        Expression_::While(_, _) | Expression_::ForIn(_, _, _)
+    ) && matches!(
+        expr_state,
+        ExpressionState::PartiallyEvaluated(BlockState::DoneRunBlock)
+    )
+}
+
 fn eval_break(env: &mut Env, expr_value_is_used: bool) {
     // Pop all the currently evaluating expressions until we are no
     // longer inside the innermost loop.
     while let Some((expr_state, expr)) = env.current_frame_mut().exprs_to_eval.pop() {
-        match &expr.expr_ {
-            Expression_::While(_, _) => {
-                env.current_frame_mut()
-                    .exprs_to_eval
-                    .push((ExpressionState::EvaluatedSubexpressions, Rc::clone(&expr)));
-
-                break;
+        if !is_running_loop(&expr_state, &expr) {
+            // We're exiting a block that wasn't the loop itself
+            // (i.e. a match case or an if/else block), so we should
+            // pop its bindings block here too.
+            if entry_owns_bindings_block(&expr_state, &expr) {
+                env.current_frame_mut().bindings.pop_block();
             }
+
+            // TODO: this needs to clean up any items pushed to the value stack.
+            // E.g. in `1 + break`.
+            continue;
+        }
+
+        match &expr.expr_ {
             Expression_::ForIn(_, _, _) => {
                 // We're exiting the loop early, we need to follow the
                 // pattern of `eval_for_in` and maintain stack
@@ -7344,27 +7385,20 @@ fn eval_break(env: &mut Env, expr_value_is_used: bool) {
                 env.pop_value()
                     .expect("Index used by `for` should be present");
 
-                env.current_frame_mut()
-                    .exprs_to_eval
-                    .push((ExpressionState::EvaluatedSubexpressions, Rc::clone(&expr)));
-
-                break;
+                // The `EvaluatedSubexpressions` step of a `for` loop
+                // pops one bindings block, which balances the block
+                // of the loop body that we are leaving.
             }
             _ => {
-                // We're exiting a block that wasn't part of a loop
-                // (i.e. a match case or an if/else block), so we
-                // should pop the bindings block here too.
-                if matches!(
-                    expr_state,
-                    ExpressionState::PartiallyEvaluated(BlockState::DoneRunBlock)
-                ) {
-                    env.current_frame_mut().bindings.pop_block();
-                }
-
-                // TODO: this needs to clean up any items pushed to the value stack.
-                // E.g. in `1 + break`.
+                // Pop the bindings block of the loop body.
+                env.current_frame_mut().bindings.pop_block();
             }
         }
+
+        env.current_frame_mut()
+            .exprs_to_eval
+            .push((ExpressionState::EvaluatedSubexpressions, Rc::clone(&expr)));
+        break;
     }
 
     // Loops always evaluate to unit.
@@ -7377,15 +7411,18 @@ fn eval_continue(env: &mut Env) {
     // Pop all the currently evaluating expressions until we are back
     // at the loop.
     while let Some((expr_state, expr)) = env.current_frame_mut().exprs_to_eval.pop() {
-        if matches!(
-            expr.expr_,
-            Expression_::While(_, _) | Expression_::ForIn(_, _, _)
-        ) {
+        if is_running_loop(&expr_state, &expr) {
             // TODO: this needs to clean up any items pushed to the value stack.
             // E.g. in `1 + continue`.
 
+            // The loop's `DoneRunBlock` step pops the bindings block
+            // of the loop body and starts the next iteration.
             env.push_expr_to_eval(expr_state, expr);
             break;
+        }
+
+        if entry_owns_bindings_block(&expr_state, &expr) {
+            env.current_frame_mut().bindings.pop_block();
         }
     }
 }
